@@ -142,6 +142,13 @@ def run(ctx: Ctx):
     from .c11 import check_writer_rows
 
     check_writer_rows(ctx, "R15.d")
+    # ... conditionals keep the priority of their branches (Myokit's piecewise / if nests arbitrarily deep)
+    from .c11 import check_writer_piecewise
+
+    check_writer_piecewise(ctx, "R15.d", M)
+    # ... and the rhs that is compared with Myokit's is printed by the NumPy backend: its function table names the
+    # functions of the model
+    printers.check_function_table(ctx, "R15.d", "numpy")
     printers.check_no_unvetted_override(ctx, "R15.d", "ode", skip=_pm15.NOT_FOR_WRITER)
     # ... and the rhs is generated by the NumPy backend: no print method of it may be replaced by an unvetted one
     printers.check_no_unvetted_override(ctx, "R15.d", "numpy", skip=("sign", "DiracDelta"))
